@@ -808,6 +808,19 @@ def c15(prop, tier, replay):
     files += [{"file": c["file"], "expect_ok": True} for c in many]
     files.append({"file": canned("minimal.mp4"), "expect_ok": True})
     files.append({"file": canned("minimal_fragment.m4s"), "init": canned("minimal_init.mp4"), "expect_ok": True})
+    # a file in which one track's first chunk lies outside the file (its read fails after the seek):
+    # the other track's answers must not depend on that failure having happened
+    for c in [c for c in lk if c["place"] == "inter" and c["n"] in (2, 3)][:3]:
+        b = bytes(c["file"])
+        i = b.rfind(b"co64")
+        if i > 0:
+            dmg = bytearray(b)
+            dmg[i + 12:i + 20] = (len(b) - 1).to_bytes(8, "big")
+            files.append({"file": list(dmg), "expect_ok": True, "tri": True})
+    # a media segment opened against a reader that has samples (and answered queries) itself
+    for c in [c for c in fr if c["delivery"] == "split" and c["base"] == "moof" and c["nfrag"] == 2][:2]:
+        whole = c["init"] + c["file"]
+        files.append({"file": c["file"], "init": whole, "expect_ok": True, "parent": True})
     counts, probes = probe_counts(files, wd)
     # (2) all schedules up to the bound (TLC), several per reader session, + long random schedules
     sts, sch = gen_mc("MC_Reader", "MC_Reader_q" if tier == "quick" else "MC_Reader_t", wd, tier, coverage=False)
@@ -817,6 +830,19 @@ def c15(prop, tier, replay):
     group = 8
     cases = list(probes)
     for fi, f in enumerate(files):
+        f = dict(f)
+        tri, parent = f.pop("tri", False), f.pop("parent", False)
+        tids = sorted(t for t in counts[fi] if t > 0)
+        reads = [{"op": "read", "t": t, "k": k} for t in tids for k in range(1, min(counts[fi][t], 3) + 1)]
+        if tri:
+            # every ordered triple of reads: a failing read between two reads of neighbouring samples included
+            calls = [c for a in reads for b in reads for d in reads for c in (a, b, d)]
+            cases.append(dict(f, id="tri-%d" % fi, prop="C15", calls=calls))
+        if parent:
+            # the parent answers a query; the derived reader is asked the same one first
+            for j, q in enumerate(reads + [dict(r, op="offset") for r in reads]):
+                pc = [rng.choice(reads) for _ in range(3)] + [q]
+                cases.append(dict(f, id="par-%d-%d" % (fi, j), prop="C15", parent_calls=pc, calls=[q] + reads + [dict(q, op="offset")]))
         order = list(range(len(scheds)))
         rng.shuffle(order)
         for g in range(0, len(order), group):
